@@ -414,6 +414,12 @@ def r5_state_machine(ctx):
 
 from rules.first_sight import r_first_sight
 
+def r20_unconditional_mutators(ctx):
+    """Mutators this property relies on always perform their effect (shared table in rules/mutators.py)."""
+    import rules.mutators as mutators
+    mutators.run_for(ctx, "C08")
+
+
 RULES = [
     ("C08.R1", "every write of entity data into a client's buffer is dominated by that client's not-hidden test", r1_guarded_writes, 9, ["default", "all-features", "server-only"]),
     ("C08.R2", "the visibility test is about the entity whose data is written; recorded for every client before components are read", r2_right_entity, 8, ["default", "all-features", "server-only"]),
@@ -421,5 +427,6 @@ RULES = [
     ("C08.R4", "decision tables: is_visible is false exactly for Hidden; state() classifies membership per policy", r4_decision_tables, 9, ["default", "all-features", "server-only"]),
     ("C08.R5", "state machine: in every reachable ClientVisibility state of either policy, any sequence of set_visibility / tick / despawn reports losses, delivers gains whole and answers queries truthfully", r5_state_machine, 25, ["default", "all-features", "server-only"]),
     ("C08.R6", "first-sight completeness: a client that does not hold an entity yet (just authorized, just spawned, visibility gained) is sent every replicated component", r_first_sight, 14, ["default", "all-features", "server-only"]),
+    ("C08.R20", "mutators this property relies on always perform their effect (rules/mutators.py): no early return, no guard outside the allowed set", r20_unconditional_mutators, 1, ["default", "all-features"]),
 ]
 THOROUGH_CONFIGS = ["default", "all-features", "server-only"]
